@@ -174,7 +174,7 @@ func (r *schedRun) quiet() int {
 		for suffix, evn := range r.markSites {
 			if strings.HasSuffix(pick.site, suffix) {
 				r.s.mu.Lock()
-				r.hist = append(r.hist, fmt.Sprintf("%s %d", evn, pick.ep))
+				r.hist = append(r.hist, fmt.Sprintf("%s %d", evn, epOfG(pick)))
 				r.s.mu.Unlock()
 			}
 		}
@@ -183,6 +183,26 @@ func (r *schedRun) quiet() int {
 		r.s.release(pick)
 	}
 	return n
+}
+
+// epOfG: the endpoint a library goroutine works for.  Actors say so themselves (verifSetEp); the receive loops are
+// started by the session's setup in endpoint order, so the n-th one belongs to endpoint n.
+func epOfG(g *verifG) int {
+	if g.ep >= 0 {
+		return g.ep
+	}
+	const pre = "transport.receiveFrames#0.go/"
+	if strings.HasPrefix(g.name, pre) {
+		n := 0
+		for _, c := range g.name[len(pre):] {
+			if c < '0' || c > '9' {
+				return -1
+			}
+			n = n*10 + int(c-'0')
+		}
+		return n
+	}
+	return -1
 }
 
 // advance lets virtual time pass (timers fire), then runs to quiescence.
